@@ -8,6 +8,8 @@ import (
 
 // Pred is a predicate over the symbolic variables of a run.
 type Pred interface {
+	// mapPolys rebuilds the predicate with every polynomial replaced (and re-simplified).
+	mapPolys(f func(*Poly) *Poly) Pred
 	smt(q *big.Int, vn func(int) string) string
 	eval(asg map[int]*big.Int, q *big.Int) bool
 	key() string
@@ -33,6 +35,33 @@ func modTerm(p *Poly, q *big.Int, vn func(int) string) string {
 		return p.constVal().String()
 	}
 	return "(mod " + p.smt(vn) + " " + q.String() + ")"
+}
+
+func (pTrue) mapPolys(func(*Poly) *Poly) Pred  { return pTrue{} }
+func (pFalse) mapPolys(func(*Poly) *Poly) Pred { return pFalse{} }
+func (e pEqZ) mapPolys(f func(*Poly) *Poly) Pred { return simplifyEqZ(f(e.p)) }
+func (e pLE) mapPolys(f func(*Poly) *Poly) Pred  { return pLEof(f(e.a), f(e.b)) }
+func (e pOdd) mapPolys(f func(*Poly) *Poly) Pred {
+	a := f(e.a)
+	if a.isConst() {
+		return Bool(a.constVal().Bit(0) == 1)
+	}
+	return pOdd{a}
+}
+func (n pNot) mapPolys(f func(*Poly) *Poly) Pred { return Not(n.x.mapPolys(f)) }
+func (c pAnd) mapPolys(f func(*Poly) *Poly) Pred {
+	xs := make([]Pred, len(c.xs))
+	for i, x := range c.xs {
+		xs[i] = x.mapPolys(f)
+	}
+	return And(xs...)
+}
+func (c pOr) mapPolys(f func(*Poly) *Poly) Pred {
+	xs := make([]Pred, len(c.xs))
+	for i, x := range c.xs {
+		xs[i] = x.mapPolys(f)
+	}
+	return Or(xs...)
 }
 
 func (pTrue) smt(*big.Int, func(int) string) string     { return "true" }
